@@ -67,7 +67,7 @@ class State:
     def assume(self, f):
         if z3.is_true(f):
             return
-        self.pc.append(f)
+        self.pc.append(norm_quant(f))
 
     # -- heap --------------------------------------------------------------------------
     def field_array(self, cls, field):
@@ -135,3 +135,17 @@ def empty_dom(ksort):
 
 def const_val(ksort, vsort):
     return z3.K(ksort, default_of(vsort))
+
+
+_nq = itertools.count()
+
+
+def norm_quant(f):
+    """Not(Exists x. P) -> ForAll x. Not P   (so that hypotheses can be instantiated by hand)"""
+    if z3.is_not(f) and z3.is_quantifier(f.arg(0)) and f.arg(0).is_exists():
+        q = f.arg(0)
+        vs = [z3.Const("%s!n%d" % (q.var_name(j), next(_nq)), q.var_sort(j)) for j in range(q.num_vars())]
+        return z3.ForAll(vs, z3.Not(z3.substitute_vars(q.body(), *reversed(vs))))
+    if z3.is_and(f):
+        return z3.And([norm_quant(c) for c in f.children()])
+    return f
